@@ -35,7 +35,7 @@ pub fn gen_case(seed: u64, profile: &str, pkg: Pkg) -> ContCase {
         unique_keys: false,
     };
     let dir = DirCase { seed: rng.next(), vstores: vec![false], stores: vec![files], indexes: vec![IndexDef { name: "files".into(), store: 0, offset: 0, count: n_entries as u32 }], defer: 0, free: 0 };
-    ContCase { content, dir, pkg, extra: vec![], id_gap: 0 }
+    ContCase { content, dir, pkg, extra: vec![], id_gap: 0, first_id: 1 }
 }
 
 /// exit status: 0 created, 10 creation returned an error, 101 panic
